@@ -464,6 +464,27 @@ def run(ck):
                         if (exact and dev != 0.0) or dev > 1e-13:
                             kk = "basis:saved-inside-context" if cs in ("basis-read", "basis-nested") else "values:parcel:%s:%s" % (key, cl)
                             ck.fail(kk, "observable `%s` of the loaded object differs from the saved one" % k, inp, dev, 0.0 if exact else 1e-13)
+        # ---- whole-number data (integer arrays) exported together with an axis whose values are not whole numbers --------------------------
+        for ext in FORMATS:
+            for shape in ((4,), (4, 2)):
+                di = numpy.arange(1, 1 + int(numpy.prod(shape)), dtype=int).reshape(shape)
+                axi = TimeAxis(0.5, 4, 0.25)
+                inp = {"format": ext, "shape": list(shape), "data": "integer array", "axis": [0.5, 4, 0.25]}
+                ck.case(("fmt-int-axis", ext, shape), nontrivial=True, kind="format", format=ext, with_axis=True)
+                try:
+                    fn4 = os.path.join(tmp, "xi%s" % ext)
+                    bi = Box(di.copy())
+                    with quiet():
+                        bi.save_data(fn4, with_axis=axi)
+                        bi2 = Box(None); axi2 = TimeAxis(0.0, 4, 1.0)
+                        bi2.load_data(fn4, with_axis=axi2)
+                    okd = bi2.data is not None and numpy.asarray(bi2.data).size == di.size and numpy.array_equal(numpy.real(numpy.asarray(bi2.data)).ravel(), di.ravel())
+                    oka = numpy.array_equal(numpy.real(numpy.asarray(axi2.data)), numpy.asarray(axi.data))
+                    if not (okd and oka):
+                        ck.fail("values:integer-data-with-axis:%s" % ext, "integer data exported with an axis and imported: %s differ from the exported ones" %
+                                ("the axis values" if okd else "the values"), inp, numpy.real(numpy.asarray(axi2.data)).tolist(), numpy.asarray(axi.data).tolist())
+                except Exception as e:
+                    ck.fail("raises:integer-data-with-axis:%s" % ext, "raised %r" % (e,), inp)
         # ---- spectra export their frequency axis with the data: export and import under the same units context --------------------
         from quantarhei.spectroscopy.absbase import AbsSpectrumBase
         from quantarhei import FrequencyAxis
